@@ -361,6 +361,13 @@ func (i *Interp) assert(c *Term, label string) {
 	if r == "sat" && i.params["__twin"] != 1 {
 		_, model = i.solver.CheckAll(append(append([]*Term{}, i.pc...), Not(c)))
 	}
+	if r == "unsat" && i.params["__cross"] == 1 {
+		// thorough tier: the discharged assertion is re-asked of the other solver
+		i.crossChecked++
+		if r2 := i.solver.CrossCheck(sliceFor(i.pc, Not(c))); r2 == "sat" {
+			fault("solver disagreement on assertion %q: primary unsat, secondary sat", label)
+		}
+	}
 	switch r {
 	case "sat":
 		i.violations = append(i.violations, Violation{Label: label, Model: model, Kind: "assert"})
@@ -399,7 +406,6 @@ func init() {
 		intrinsics[k] = v
 	}
 }
-
 
 // ---- templater model ---------------------------------------------------------------------
 //
